@@ -46,6 +46,10 @@ pub enum S {
     /// a struct with an explicit name (for the Duration marker payload)
     NamedStruct(&'static str, Vec<(&'static str, S)>),
     StructVariant(Vec<(&'static str, S)>),
+    /// a type whose Serialize impl asks the serializer whether it is human readable (as
+    /// std::net::IpAddr, uuid, ... do): JSON-commuting requires the human-readable form
+    HumanReadable,
+    Ip(std::net::IpAddr),
     /// the crate's own wrappers
     Duration(i64, i32),
     Timestamp(i64, u32, i32),
@@ -139,6 +143,14 @@ impl Serialize for S {
                 }
                 q.end()
             }
+            S::HumanReadable => {
+                if z.is_human_readable() {
+                    z.serialize_str("human-readable")
+                } else {
+                    z.serialize_u8(0)
+                }
+            }
+            S::Ip(ip) => ip.serialize(z),
             S::Duration(s, n) => cel_interpreter::Duration(dur(*s, *n)).serialize(z),
             S::Timestamp(s, n, o) => cel_interpreter::Timestamp(ts(*s, *n, *o)).serialize(z),
         }
@@ -283,6 +295,8 @@ fn expected(s: &S) -> Exp {
                 single("SV", MV::Map(out))
             })
         }
+        S::HumanReadable => Exp::Must(MV::s("human-readable")),
+        S::Ip(ip) => Exp::Must(MV::Str(ip.to_string())),
         S::Duration(s, n) => {
             let d = dur(*s, *n);
             Exp::Must(MV::Duration(d.num_seconds(), d.subsec_nanos()))
@@ -304,7 +318,7 @@ fn expected(s: &S) -> Exp {
 /// kinds for which "converting and then exporting to JSON equals serialising directly" is demanded
 fn json_native(s: &S) -> bool {
     match s {
-        S::I8(_) | S::I16(_) | S::I32(_) | S::I64(_) | S::U8(_) | S::U16(_) | S::U32(_) | S::U64(_) | S::Bool(_) | S::Char(_) | S::Str(_) | S::None | S::Unit | S::UnitStruct | S::UnitVariant => true,
+        S::I8(_) | S::I16(_) | S::I32(_) | S::I64(_) | S::U8(_) | S::U16(_) | S::U32(_) | S::U64(_) | S::Bool(_) | S::Char(_) | S::Str(_) | S::None | S::Unit | S::UnitStruct | S::UnitVariant | S::HumanReadable | S::Ip(_) => true,
         S::F32(v) => v.is_finite(),
         S::F64(v) => v.is_finite(),
         S::Some(x) | S::NewtypeVariant(x) => json_native(x),
@@ -370,6 +384,7 @@ fn kind(s: &S) -> &'static str {
         S::MapValueFirst(_) => "map-value-first",
         S::Struct(_) | S::NamedStruct(..) => "struct",
         S::StructVariant(_) => "struct_variant",
+        S::HumanReadable | S::Ip(_) => "human-readable",
         S::Duration(..) => "duration-wrapper",
         S::Timestamp(..) => "timestamp-wrapper",
     }
@@ -431,6 +446,7 @@ pub fn leaves() -> Vec<S> {
         S::U128(7), S::U128(u64::MAX as u128 + 1), S::F32(0.0), S::F32(1.5), S::F32(f32::NAN), S::F32(f32::INFINITY), S::F32(f32::MAX), S::F32(0.1), S::F64(-0.0), S::F64(1e300),
         S::F64(f64::NAN), S::F64(0.1), S::Bool(true), S::Bool(false), S::Char('a'), S::Char('\u{e9}'), S::Char('\0'), S::Char('\u{1f600}'), S::Str(String::new()), S::Str("\u{e9}".into()),
         S::Str("k".into()), S::Str("1".into()), S::Bytes(vec![]), S::Bytes(vec![0, 255]), S::None, S::Unit, S::UnitStruct, S::UnitVariant,
+        S::HumanReadable, S::Ip("10.1.2.3".parse().unwrap()), S::Ip("::1".parse().unwrap()),
     ]
 }
 
